@@ -1725,7 +1725,7 @@ class Process:
         try:
             return readlink(path)
         except (FileNotFoundError, ProcessLookupError):
-            if os.path.lexists(f"{self._procfs_path}/{self.pid}"):
+            if path_exists_strict(f"{self._procfs_path}/{self.pid}"):
                 self._raise_if_zombie()
                 if fallback is not UNSET:
                     return fallback
